@@ -98,9 +98,43 @@ Definition g_strings (c : lcase) : bool :=
      match a, b with (r1, u1, k1), (r2, u2, k2) =>
        negb (String.eqb r1 r2) || (String.eqb (target_of c u1 r1) (target_of c u2 r2) && N.eqb k1 k2) end) l) l.
 
+(* no component that is itself a reference is referred to under two different texts: while the
+   component's own target is in progress (a cycle, or simply the whole-document pass over a file that
+   the target lives in), a reference written with another text is not recognised as in progress,
+   resolveComponent copies the still unresolved component, the callback registered for that copy has
+   no destination, and the value is lost *)
+Definition loc_of (c : lcase) (u r : string) : string * option (list string) :=
+  let url := before_hash r in
+  (if String.eqb url "" then u else rpath_of c (base u) url,
+   if has_hash r then frag_segments (after_hash r) else Some []).
+Fixpoint reaches (fuel : nat) (c : lcase) (u : string) (nd : node) (gu : string) (gp : list string) : bool :=
+  match fuel with O => false | S f =>
+    existsb (fun r =>
+       match loc_of c u r with
+       | (u2, Some segs) =>
+           (String.eqb u2 gu && path_eqb segs gp) ||
+           match files_of c u2 with
+           | Some fl => match find_cell segs (f_cells fl) with
+                        | Some (_, n2) => reaches f c u2 n2 gu gp
+                        | None => false end
+           | None => false end
+       | _ => false end) (refs_of 64 nd)
+  end.
+(* the distinct reference texts of the store that designate the location (gu, gp) *)
+Definition texts_for (c : lcase) (gu : string) (gp : list string) : list string :=
+  fold_left (fun acc x => match x with (r, u, _) =>
+               match loc_of c u r with
+               | (u2, Some segs) => if String.eqb u2 gu && path_eqb segs gp && negb (str_in r acc) then r :: acc else acc
+               | _ => acc end end) (occs c) [].
+Definition g_refcomp (c : lcase) : bool :=
+  forallb (fun uf => forallb (fun x : list string * kind * bool * node => match x with (p, _, _, n) =>
+     match n with
+     | NRef _ => negb (Nat.ltb 1 (List.length (texts_for c (fst uf) p)))
+     | NObj _ _ => true end end) (f_cells (snd uf))) (lc_files c).
+
 Definition guard_class (c : lcase) : N :=
   if negb (g_slots c) then 1 else if negb (g_single c) then 4 else if negb (g_exts c) then 5
-  else if negb (g_strings c) then 3 else 0.
+  else if negb (g_strings c) then 3 else if negb (g_refcomp c) then 6 else 0.
 
 Definition reads_same (c : lcase) (s : lstate) : bool := list_eqb String.eqb (reads s) (g_reads c).
 
@@ -125,6 +159,9 @@ Definition judge_C02 (c : lcase) : N :=
            else if existsb (fun pv => match snd pv, passoc (fst pv) (spec_obs_all c) with None, Some None => true | _, _ => false end) (g_obs c)
                 then J_KNOWN 2      (* a reference designating no object (cycle of references / dangling) left unresolved, load succeeds *)
                 else J_VIOL)
+        (* references into extension areas are decoded from the raw map, a fresh copy per reference, and
+           resolved again inside the copy: the model follows the loader there only one level deep *)
+        else if negb (g_exts c) then J_KNOWN 5
         else J_VIOL
   end.
 
